@@ -7,7 +7,7 @@ import coqlit as L
 
 ID = "C06"
 COQ_PROPERTY_FILE = "Properties/C06.v"
-COQ_DEPS = ["Common/ListX.v", "Common/ObsHash.v", "Generated/Tables.v", "Model/CellSpace.v", "Proofs/CellSpaceProofs.v"]
+COQ_DEPS = ["Common/ListX.v", "Common/ObsHash.v", "Generated/Tables.v", "Model/CellSpace.v", "Proofs/CellSpaceProofs.v", "Proofs/CellSpaceRefine.v"]
 COQ_IMPORTS = "From Mesa Require Import Model.CellSpace."
 COQ_CASE_TYPE = "case"
 COQ_RUN = "run_case"
@@ -161,37 +161,53 @@ def _gen_ops(rng, sp, kinds, n_ops):
                 c = some_cell(0.3)
                 ops.append(["set", a, c])
                 where[a] = c
-    while len(ops) < n_ops:
+    movers = [i for i in ids if kinds[i - 1] != "fixed"]
+    g2 = [i for i in ids if kinds[i - 1] == "grid2d"]
+    guard = 0
+    while len(ops) < n_ops and guard < 1000:
+        guard += 1
         a = rng.choice(ids)
-        k = kinds[a - 1]
         r = rng.random()
         if a in removed and rng.random() < 0.85:
             continue
         if r < 0.22:
+            if kinds[a - 1] == "fixed" and a in where and rng.random() < 0.8:
+                continue
             c = some_cell(0.5)
             ops.append(["set", a, c])
             where[a] = c
         elif r < 0.27:
+            if kinds[a - 1] == "fixed" and rng.random() < 0.8:
+                continue
             ops.append(["set", a, None])
             where[a] = None
         elif r < 0.30:
             ops.append(["set", a, where.get(a) if where.get(a) is not None else some_cell(0.5)])
         elif r < 0.40:
+            if not movers:
+                continue
+            a = rng.choice(movers)
             c = some_cell(0.5)
             ops.append(["move_to", a, c])
             where[a] = c
         elif r < 0.60:
+            if not movers:
+                continue
+            a = rng.choice(movers)
+            if where.get(a) is None and a not in where and rng.random() < 0.8:
+                continue
             ops.append(["move_rel", a, _rand_dir(rng, sp, ncells)])
-            where[a] = None if a not in where else where[a]
         elif r < 0.75:
-            g2 = [i for i in ids if kinds[i - 1] == "grid2d"]
-            if g2 and rng.random() < 0.9:
-                a = rng.choice(g2)
+            if not g2:
+                continue
+            a = rng.choice(g2)
+            if a not in where and rng.random() < 0.8:
+                continue
             ops.append(["move2d", a, _rand_name(rng), rng.choice([1, 1, 1, 2, 2, 3, 4, 0, -1, 6])])
         elif r < 0.83:
             ops.append(["remove", a])
             removed.add(a)
-            where[a] = None
+            where.pop(a, None)
         elif r < 0.92:
             ops.append(["rand_empty", rng.random() < 0.5])
         else:
@@ -240,6 +256,13 @@ def _corner_cases():
     out.append({"space": sp, "agents": ["grid2d", "cell", "grid2d"], "seed": 4,
                 "ops": [["set", 1, 0], ["set", 2, 3], ["move2d", 1, "south", 2], ["move2d", 1, "south", 3], ["move2d", 1, "s", 1], ["set", 3, 8],
                         ["move2d", 3, "SE", 4], ["move2d", 3, "east", 3], ["remove", 3], ["move2d", 3, "east", 1]]})
+    # every direction name of the documented compass, one step and two steps from the centre of a 3x3 Moore torus
+    names = sorted(ORACLE_DIRS)
+    for s0 in range(0, len(names), 6):
+        ops = []
+        for nm in names[s0:s0 + 6]:
+            ops += [["set", 1, 4], ["move2d", 1, nm, 1], ["move2d", 1, nm.upper(), 2]]
+        out.append({"space": {"type": "moore", "dims": [3, 3], "torus": True, "capacity": None}, "agents": ["grid2d"], "seed": 7, "ops": ops})
     # networks and Voronoi: capacity, un-placing, empties under the list strategy on a full space
     out.append({"space": {"type": "network", "graph": GRAPHS[1], "capacity": 1}, "agents": ["cell", "cell", "fixed"], "seed": 5,
                 "ops": [["set", 1, 0], ["set", 2, 1], ["rand_empty", False], ["set", 3, 0], ["move_rel", 1, [1]], ["set", 1, None], ["place_rand", 3, False],
@@ -394,9 +417,23 @@ def run_impl(case):
     import mesa
     from mesa.discrete_space import CellAgent, FixedAgent, Grid2DMovingAgent
 
+    import random as _random
+
+    class _BoundedRandom(_random.Random):
+        """the space's generator; a rejection-sampling loop that does not terminate (the implementation sees
+        no empty cell where the history has one) is cut off instead of hanging the check"""
+        draws = 0
+
+        def choice(self, seq):
+            self.draws += 1
+            if self.draws > 5000:
+                raise RuntimeError("select_random_empty_cell did not terminate (5000 draws)")
+            return super().choice(seq)
+
     sp = case["space"]
     model = mesa.Model(seed=case.get("seed", 0))
-    space = _build_space(sp, model.random)
+    rnd = _BoundedRandom(case.get("seed", 0))
+    space = _build_space(sp, rnd)
     is_grid = sp["type"] in ("moore", "vonneumann", "hex")
     cells = list(space._cells.values())
     ncells = len(cells)
@@ -447,7 +484,8 @@ def run_impl(case):
         return bool(cap) and len([a for a in occupants(c) if a != entering]) >= cap
 
     def fail(key, i, what):
-        if not poisoned[0] or key.startswith("C18/"):
+        # once the state has been found inconsistent, later failures are consequences, not evidence
+        if not poisoned[0]:
             failures.append({"key": key, "op": i, "what": what})
 
     def check_state(site, i, op):
@@ -455,8 +493,8 @@ def run_impl(case):
         lists = [ids_of(c.agents) for c in cells]
         for a in range(1, n + 1):
             ag = agents[a - 1]
-            if ag not in model.agents:
-                continue
+            if ag not in model.agents and kinds[a - 1] == "fixed":
+                continue            # a removed FixedAgent keeps its pointer by design
             c = ag.cell
             ci = cidx.get(id(c)) if c is not None else None
             cnt = [l.count(a) for l in lists]
@@ -599,6 +637,7 @@ def run_impl(case):
         # ---- run it
         raised = None
         ret = None
+        rnd.draws = 0
         try:
             if kind == "set":
                 ag.cell = cells[op[2]] if op[2] is not None else None
